@@ -575,7 +575,10 @@ def r11(F, R):
     def last(t):
         return re.sub(r"<[^<>]*(<[^<>]*(<[^<>]*>[^<>]*)*>[^<>]*)*>", "", callee_path(t) or "").replace("::::", "::").rsplit("::", 1)[-1]
     prov = {b.name.rsplit("::", 1)[-1]: b for b in F.crate_bodies() if (b.impl or {}).get("trait") == "World" and (b.impl or {}).get("provided")}
+    macros_on = any(b.name.startswith("codegen::") or b.name.startswith("<") and " as codegen::" in b.name for b in F.crate_bodies())
     for name, want in (("run", "run_and_exit"), ("filter_run", "filter_run_and_exit")):
+        if not macros_on and name not in prov:
+            continue      # `World::run` / `filter_run` / `cucumber` exist only with the `macros` feature: nothing to decide in this configuration
         b = prov.get(name)
         if b is None:
             raise Unverifiable(f"World::{name}")
@@ -584,12 +587,13 @@ def r11(F, R):
         R.check(calls == [want] and base == ["cucumber"], f"entry/World::{name}", b, f"Self::cucumber().{want}(..)",
                 f"`World::{name}` runs {calls} on {base or 'another pipeline'}: a failed run is not turned into a failing process (expected `Self::cucumber().{want}`)")
     b = prov.get("cucumber")
-    if b is None:
+    if b is None and macros_on:
         raise Unverifiable("World::cucumber")
-    names = [last(t) for _, t in b.calls()]
-    st = [(s_, t) for s_, t in b.calls() if last(t) == "steps"]
-    ok = len(st) == 1 and any(callee_path(ct) == "World::collection" for _, ct in A.slice_back(b, st[0][1]["args"][1:]).calls)
-    R.check(ok, "entry/World::cucumber", b, "Cucumber::new().steps(Self::collection())", f"`World::cucumber()` does not register `Self::collection()` (calls {names}): every step would be reported as skipped")
+    if b is not None:
+        names = [last(t) for _, t in b.calls()]
+        st = [(s_, t) for s_, t in b.calls() if last(t) == "steps"]
+        ok = len(st) == 1 and any(callee_path(ct) == "World::collection" for _, ct in A.slice_back(b, st[0][1]["args"][1:]).calls)
+        R.check(ok, "entry/World::cucumber", b, "Cucumber::new().steps(Self::collection())", f"`World::cucumber()` does not register `Self::collection()` (calls {names}): every step would be reported as skipped")
     for name, want in (("run_and_exit", "filter_run_and_exit"), ("run", "filter_run")):
         bs = [x for x in F.crate_bodies() if (x.impl or {}).get("self_adt") == "cucumber::Cucumber" and not (x.impl or {}).get("trait") and re.sub(r"<.*>$", "", x.name).rsplit("::", 1)[-1] == name and x.kind == "AssocFn"]
         if len(bs) != 1:
@@ -611,7 +615,7 @@ def r11(F, R):
             ok = kb is not None and consts <= {"true", "1"} and bool(consts) and not list(kb.calls())
             why = f"the filter it passes returns {sorted(consts) or 'not a closure'}"
         R.check(ok, f"entry/Cucumber::{name}", bs[0], f"{want}(input, |_, _, _| true)", f"`Cucumber::{name}` is not `{want}` with an accept-everything filter: {why}")
-    R.floor(5)
+    R.floor(5 if macros_on else 2)
 
 
 def r12(F, R):
